@@ -86,6 +86,45 @@ def vector_sum_kernel(ctx, f):
                     if len(oks_) == 1 and all(a[0] in ("residual", "errval") or (a[0] == "agg" and a[3] == "Err") for a in errs_):
                         E, init, src_ok = oks_[0], r["init"][0], r["source"] == ("arg", 1)
                         why = ""
+        if E is None and r is not None and r["form"] in ("fold", "try_fold") and len(r["steps"]) == 1 and res is not None:
+            # functional outer traversal, in-place inner one: the closure updates its accumulator through
+            # `acc.iter_mut().zip(&c.0[..len])` (a commitment shorter than `len` refused by the checked slice)
+            fo = res
+            while fo[0] == "ok":
+                fo = fo[1]
+            clo = fo[2][2]
+            cf = P.fns.get(clo[1]) if clo[0] == "closure" else None
+            if cf is not None and cf.has_body:
+                sub = {1: ("agg", "tuple", None, None, tuple((str(n), val) for n, val in enumerate(clo[2]))), 2: ACC, 3: ITEM}
+                cv = FnView(P, cf, sub, (("clo", clo[1]),))
+                lps = [lp for lp in loop_report(P, cf, cv) if lp["iter_term"] is not None and is_call(strip_iter_calls(lp["iter_term"]), name="zip")]
+                if len(lps) == 1 and not any(c == "break" for _, c in lps[0]["exits"]):
+                    z = strip_iter_calls(lps[0]["iter_term"])
+                    left, right = z[2][0], strip_iter_calls(z[2][1])
+                    init_len = fo[2][1]
+                    # left: the accumulator's elements; right: the first `len(acc)` coefficients of this commitment, checked
+                    lok = is_call(left, name="iter_mut") and mentions(left[2][0], lambda s_: s_ == ACC)
+                    pref = right[1] if right[0] in ("some", "ok") else right
+                    pref = pref[1] if pref[0] == "ok_or" else pref
+                    rok = is_call(pref, name="get") and len(pref[2]) == 2 and pref[2][1][0] == "agg" and (pref[2][1][2] or "").endswith("RangeTo") and \
+                        mentions(init_len, lambda s_: s_ == dict(pref[2][1][4]).get("end")) and \
+                        (pref[2][0] == ITEM or strip_newtype_fields(pref[2][0]) == ITEM or (pref[2][0][0] == "field" and pref[2][0][3] == "0" and pref[2][0][1] == ITEM))
+                    ii = lambda x: x[0] == "some" and is_call(x[1], name="next") and x[1][2] and is_call(strip_iter_calls(x[1][2][0]), name="zip")
+                    steps = []
+                    for p in loop_transfer(P, cf, cv, lps[0], set()):
+                        if p["end"] != "back":
+                            continue
+                        ws = [(l, x) for l, x in p["deref_writes"].items() if subst(p["cx"].local(l), [(ii, ITEM2)]) == ("field", ITEM2, None, "0")]
+                        steps.append(subst(ws[0][1], [(ii, ITEM2)]) if len(ws) == 1 else None)
+                    if lok and rok and steps and all(x is not None and x == steps[0] for x in steps):
+                        # normalise to the (index, old) / get(c, index) vocabulary of the other forms: pair = (old, other)
+                        e_ = unwrap_newtypes(steps[0])
+                        if is_call(e_, name="add") and len(e_[2]) == 2:
+                            oldp = lambda t: strip_newtype_fields(t) == ("field", ITEM2, None, "0")
+                            othp = lambda t: strip_newtype_fields(t) == ("field", ITEM2, None, "1")
+                            if (oldp(e_[2][0]) and othp(e_[2][1])) or (oldp(e_[2][1]) and othp(e_[2][0])):
+                                E = ("call", e_[1], (("field", ITEM2, None, "1"), ("some", ("call", "x::get", (ITEM, ("field", ITEM2, None, "0")), None, None))), e_[3], e_[4])
+                                init, src_ok, why = r["init"][0], r["source"] == ("arg", 1), ""
         elif res is not None and res[0] == "mut":
             base = res[1]
             lps = loop_report(P, f)
@@ -125,6 +164,8 @@ def vector_sum_kernel(ctx, f):
               "commitment refused): %s" % why, f.loc)
     first_len = lambda t: (is_call(t, name="len") and len(t[2]) == 1 and
                            mentions(t[2][0], lambda s_: s_[0] == "some" and is_call(s_[1], name="first") and s_[1][2][0] == ("arg", 1)))
+    if init is not None and is_call(init, name="collect") and init[2] and is_call(init[2][0], name="repeat_n") and len(init[2][0][2]) == 2:
+        init = ("call", "x::from_elem", init[2][0][2], None, None)          # repeat_n(x, n).collect() is vec![x; n]
     good = init is not None and is_call(init, name="from_elem") and len(init[2]) == 2 and is_call(unwrap_newtypes(init[2][0]), name="identity") and first_len(init[2][1])
     ctx.check(good, "AGREE", f.key, "starts-from-[identity; len(first)]",
               "the running total must start as one identity element per coefficient of the first commitment", f.loc)
